@@ -216,3 +216,81 @@ func VH_C03_companion_arcs() {
 	rc := r.Coords()
 	vAssert("C03.companion.replacearcs_no_arcs_from_start_to_end", noArcs && len(rc) >= 2 && vhPtEq(rc[0], Point{x0, y0}) && vhNearPt(rc[len(rc)-1], Point{x1, y1}))
 }
+
+// vhTrueLen measures a path on a dense independent evaluation of its segments (n chords each).
+func vhTrueLen(p *Path, n int) float64 {
+	subs, ok := vhDecode(p.d)
+	if !ok {
+		return math.NaN()
+	}
+	l := 0.0
+	for _, sb := range subs {
+		for _, sg := range sb.segs {
+			prev := sg.start
+			for k := 1; k <= n; k++ {
+				t := float64(k) / float64(n)
+				var q Point
+				switch sg.cmd {
+				case QuadToCmd:
+					c := Point{sg.a[0], sg.a[1]}
+					u := 1 - t
+					q = Point{u*u*sg.start.X + 2*u*t*c.X + t*t*sg.end.X, u*u*sg.start.Y + 2*u*t*c.Y + t*t*sg.end.Y}
+				case CubeToCmd:
+					c1, c2 := Point{sg.a[0], sg.a[1]}, Point{sg.a[2], sg.a[3]}
+					u := 1 - t
+					q = Point{u*u*u*sg.start.X + 3*u*u*t*c1.X + 3*u*t*t*c2.X + t*t*t*sg.end.X, u*u*u*sg.start.Y + 3*u*u*t*c1.Y + 3*u*t*t*c2.Y + t*t*t*sg.end.Y}
+				case ArcToCmd:
+					large, sweep := toArcFlags(sg.a[3])
+					q = vhArcPoint(sg.start.X, sg.start.Y, sg.a[0], sg.a[1], sg.a[2], large, sweep, sg.end.X, sg.end.Y, t)
+				default:
+					q = Point{sg.start.X + t*(sg.end.X-sg.start.X), sg.start.Y + t*(sg.end.Y-sg.start.Y)}
+				}
+				l += math.Hypot(q.X-prev.X, q.Y-prev.Y)
+				prev = q
+			}
+		}
+	}
+	return l
+}
+
+// C09 companion: accuracy of Length() and of the cut positions of SplitAt on single curved
+// segments, against the dense independent evaluation above.  The property allows about one per
+// cent for Length; the same allowance (of the whole length) is used for the cut positions.
+// Shapes: arcs of circles and of 2:1, 6:1 and 12:1 ellipses from a quarter to nearly the whole
+// ellipse, rotated or not, and quadratic/cubic Béziers with evenly and very unevenly spaced
+// control points; cuts at 10, 25, 50, 75, 90 and 95 % of Length().
+func VH_C09_companion_lengths() {
+	shapes := []string{
+		"M10 0A10 10 0 0 1 0 10",          // 0 quarter circle
+		"M10 0A10 10 0 1 1 7.0711 -7.0711", // 1 315 degrees of a circle
+		"M6 0A6 3 0 0 1 0 3",              // 2 quarter of a 2:1 ellipse
+		"M0 0A6 3 0 1 1 12 0",             // 3 half of a 2:1 ellipse (radii fit exactly)
+		"M4 6A6 3 0 1 0 3 6",              // 4 nearly a whole 2:1 ellipse
+		"M0 0A6 1 0 0 1 6 1",              // 5 quarter of a 6:1 ellipse
+		"M4 6A6 1 0 1 0 3 6",              // 6 nearly a whole 6:1 ellipse
+		"M0 0A6 1 90 1 1 5 6",             // 7 rotated 6:1 ellipse, radii scaled up to fit
+		"M0 0A12 1 0 1 1 24 0",            // 8 half of a 12:1 ellipse
+		"M0 0Q5 5 10 0",                   // 9 symmetric quadratic
+		"M0 0Q5 20 6 0",                   // 10 tall narrow quadratic
+		"M0 0C0 10 20 10 20 0",            // 11 cubic of the upstream tests
+		"M0 0C0 10 1 10 1 0",              // 12 hairpin cubic
+		"M0 0C10 0 -4 1 6 1",              // 13 cubic with a near-cusp
+	}
+	k := vChoose(0, len(shapes)-1)
+	p := MustParseSVGPath(shapes[k])
+	ref := vhTrueLen(p, 1500)
+	L := p.Length()
+	vKnown("D79", k == 12)
+	vAssert("C09.companion.length_within_one_per_cent", math.Abs(L-ref) <= 0.01*ref)
+	fr := []float64{0.1, 0.25, 0.5, 0.75, 0.9, 0.95}[vChoose(0, 5)]
+	qs := p.SplitAt(fr * L)
+	vAssert("C09.companion.two_pieces", len(qs) == 2)
+	if len(qs) != 2 {
+		return
+	}
+	l0, l1 := vhTrueLen(qs[0], 1500), vhTrueLen(qs[1], 1500)
+	vKnown("D78", k == 4 || k == 6 || k == 7 || k == 8)
+	vKnown("D79", k == 10 || k == 12 || k == 13)
+	vAssert("C09.companion.pieces_make_up_the_curve", math.Abs(l0+l1-ref) <= 0.002*ref)
+	vAssert("C09.companion.cut_within_one_per_cent_of_the_length", math.Abs(l0-fr*L) <= 0.01*ref)
+}
